@@ -147,17 +147,28 @@ def check(case):
   nontrivial = bool(sum(cbspec)) or case['runs'] > 1 or bool(special)
   classes = ['cbs:%d' % len(cbspec), 'raising:%d' % sum(cbspec), 'runs:%d' % case['runs']] + (['special:' + special[0]] if special else [])
   summaries = []
+  if 'vf_c09_probe' not in configuration.CONF._declarations:  # pylint: disable=protected-access
+    configuration.CONF.declare('vf_c09_probe')   # no default: present in the snapshot only while a value is loaded
   for run in range(case['runs']):
     current['run'] = run
-    snapshot = configuration.CONF._asdict()  # pylint: disable=protected-access
     n_before = len(log)
     ctx.inv.clear()
     exc = None
     ret = None
+    snap_box = []
+
+    def do_run():
+      snap_box.append(configuration.CONF._asdict())  # pylint: disable=protected-access
+      return test.execute(test_start=tsarg)
+
     try:
-      ret = test.execute(test_start=tsarg)
+      if run % 2 == 0:   # the configuration differs from run to run: even runs have one more key loaded
+        ret = configuration.CONF.save_and_restore(vf_c09_probe=run)(do_run)()
+      else:
+        ret = do_run()
     except BaseException as e:  # pylint: disable=broad-except
       exc = e
+    snapshot = snap_box[0] if snap_box else None
     if exc is not None:
       r.bad('C09/execute-raised/%s' % type(exc).__name__, 'run %d: execute() raised %r' % (run, exc))
       break
